@@ -26,11 +26,14 @@ type C09Scenario struct {
 	// Metrics: the Exchange is built WithMetrics (a configuration that must not change any result)
 	Metrics bool `json:"metrics,omitempty"`
 	// Restart: the Exchange is stopped and started again before it is used
-	Restart  bool      `json:"restart,omitempty"`
-	Trusted  bool      `json:"trusted_head"` // WithTrustedHead mode
-	Peers    []C09Peer `json:"peers"`
-	Deadline bool      `json:"deadline"`            // caller ctx with a 3s deadline (else 60s)
-	SoftType bool      `json:"soft_type,omitempty"` // the header type reports every rejection as soft
+	Restart bool `json:"restart,omitempty"`
+	// NoChainID: the Exchange is built without WithChainID (answers are not filtered by chain id; the peers then all
+	// serve the right chain)
+	NoChainID bool      `json:"no_chain_id,omitempty"`
+	Trusted   bool      `json:"trusted_head"` // WithTrustedHead mode
+	Peers     []C09Peer `json:"peers"`
+	Deadline  bool      `json:"deadline"`            // caller ctx with a 3s deadline (else 60s)
+	SoftType  bool      `json:"soft_type,omitempty"` // the header type reports every rejection as soft
 }
 
 // pool of reported headers relative to the trusted header at height 20 (span 10):
@@ -68,6 +71,15 @@ func genC09(t *rapid.T) C09Scenario {
 	}
 	s.Metrics = rapid.IntRange(0, 3).Draw(t, "metrics") == 0
 	s.Restart = rapid.IntRange(0, 3).Draw(t, "restart") == 0
+	if rapid.IntRange(0, 4).Draw(t, "nochainid") == 0 {
+		s.NoChainID = true
+		for i := range s.Peers {
+			switch s.Peers[i].Kind {
+			case "header_case", bhWrongChain, bhNoChain:
+				s.Peers[i].Kind = "header"
+			}
+		}
+	}
 	return s
 }
 
@@ -87,8 +99,8 @@ func c09Quorum(n int) int {
 }
 
 func runC09(t *testing.T, s C09Scenario) (res Result) {
-	exchangeMetrics, exchangeRestart = s.Metrics, s.Restart
-	defer func() { exchangeMetrics, exchangeRestart = false, false }()
+	exchangeMetrics, exchangeRestart, exchangeNoChainID = s.Metrics, s.Restart, s.NoChainID
+	defer func() { exchangeMetrics, exchangeRestart, exchangeNoChainID = false, false, false }()
 	bubble(t, func() {
 		spec := vh.ChainSpec{ChainID: "c09", N: 60, StartMs: -1_000_000, Spans: []uint64{10}}
 		if s.SoftType {
